@@ -1067,8 +1067,9 @@ func genC18(c *corpus, seed uint64) *scn.Scenario {
 	// very long (rare, heavy): more than a million requests from one pool, or a
 	// block size of 200,000 ... 2^20 with a request count beyond it
 	vlong := !long && ((deepTier && r.chance(2)) || r.n(200) == 0)
+	huge := false
 	if vlong {
-		long, nt, maxOps, maxTotal = true, 1, 3, 1400000
+		long, nt, maxOps, maxTotal = true, 1, 3, 4600000
 	}
 	total := 0
 	for t := 0; t < nt; t++ {
@@ -1095,10 +1096,20 @@ func genC18(c *corpus, seed uint64) *scn.Scenario {
 				sp.Type = sameType
 			}
 			if vlong {
-				if r.chance(50) {
-					sp.Block = r.pick([]int{200001, 262144, 524288, 1 << 20, 1<<20 + 1})
-				} else {
+				switch x := r.n(4); {
+				case x < 2:
+					// a block above 2^17, up to twice as many requests as it holds
+					sp.Block = r.pick([]int{200001, 200001, 262144, 524288, 1 << 20, 1<<20 + 1})
+					if sp.Block > 300000 {
+						sp.Type = "position" // the cheaper objects
+					}
+				case x == 2:
 					sp.Block = r.pick([]int{1, 3, 64, 1000, 1024, 4096, 65536})
+				default:
+					// three to four and a half million requests (growth policies that
+					// count doublings, 32-bit products): position objects only
+					sp.Block, sp.Type = r.pick([]int{64, 1000, 1024, 1024, 4096}), "position"
+					huge = true
 				}
 			} else if long && r.chance(60) {
 				sp.Block = hugeBlocks[r.n(len(hugeBlocks))]
@@ -1153,9 +1164,12 @@ func genC18(c *corpus, seed uint64) *scn.Scenario {
 					}
 				}
 				if vlong {
-					n = blk + 1 + r.n(blk/16+2)
+					n = blk + 1 + r.n(blk+2)
 					if blk <= 65536 {
 						n = 1050000 + r.n(150000)
+					}
+					if huge {
+						n = 3250000 + r.n(1200000)
 					}
 				}
 				if n < 1 {
